@@ -284,6 +284,11 @@ class LockModel:
                         if moved:
                             facts -= moved
                             facts |= {(x[0], dst, x[2], x[3]) for x in moved}
+                elif 'Guard<' in (body.local_type(dst) or '') and not f.startswith('<') and \
+                        self.returned_guard(f, body.crate, getattr(self, '_stack', ())):
+                    lid, mode = self.returned_guard(f, body.crate, getattr(self, '_stack', ()))
+                    facts.add((lid, dst, bid, mode))
+                    acq_events[bid] = (t, lid, mode)
                 else:
                     meth = norm_callee(f).split('::')[-1]
                     carried = False
@@ -391,6 +396,36 @@ class LockModel:
              'order': order}
         self._facts[ckey] = r
         return r
+
+    def returned_guard(self, func, crate, _stack=()):
+        """(lock id, mode) when `func` resolves to exactly one crate function that returns a lock guard
+        it acquired itself - on every return the guard in `_0` belongs to one lock - else None.  Such a
+        wrapper (`fn lock_wal_size_below_limit(&self) -> MutexGuard<u64>`) is an acquisition at its
+        call site."""
+        key = ('rg', func, crate)
+        if key in self._facts:
+            return self._facts[key]
+        out = None
+        try:
+            cs = [c for c in self.P.resolve(func, crate) if c.kind == 'fn']
+        except Exception:
+            cs = []
+        if len(cs) == 1 and 'Guard<' in (cs[0].ret or '') and cs[0].name not in _stack:
+            G = cs[0]
+            self._stack = tuple(_stack) + (G.name,)
+            a = self.analyse(G)
+            cfg = a['cfg']
+            locks = None
+            for rb in cfg.return_blocks():
+                if G.blocks[rb].cleanup:
+                    continue
+                facts = a['site_must'].get((rb, None), frozenset())
+                here = {(f[0], f[3]) for f in facts if f[1] == 0}
+                locks = here if locks is None else (locks & here)
+            if locks and len(locks) == 1:
+                out = next(iter(locks))
+        self._facts[key] = out
+        return out
 
     def may_at(self, body, bid, idx=None):
         return self.analyse(body)['site_may'].get((bid, idx), frozenset())
